@@ -2,4 +2,6 @@
 //! the crate under test.
 pub mod calendar;
 pub mod exact;
+pub mod picture;
+pub mod tables;
 pub mod ranges;
